@@ -13,6 +13,18 @@ P19 = {
     "engine": [r".*ab", r".+ab", r".*?ab", r"[^x]*ab", r"(?s).*ab", r".*ab$", r".*(ab|cd)", r".*ab.*", r".+ab.+", r"x.*ab.*y", r"(?m)^.*ab", r"(?m)^/.*\.js", r"\d+ab",
                r"\d+\.\d+", r"(\d+)-(\d+)", r"\d*x", r"ab$", r"(a|b)$", r"\bab$", r"[a-z]+(?:\b-){1,2}e", r"[a-z]+\.tx", r".*\.(tx|lo)", r"\w+@\w+", r"^(ab|cd)", r"^a.*c$", r"[a-z]+[0-9]+", r"[a-z]+", r"(?i)ab|cd", r"a.*b$"],
 }
+# one pattern (or more) per strategy of meta.SelectStrategy, driven through Engine.Find / FindAt / FindIndices(At)
+# (meta/find.go has its own dispatch over every strategy); AC = 72 complete literals (UseAhoCorasick)
+AC = "|".join(c1 + c2 for c1 in "abcdefghj" for c2 in "klmnopqr")
+FINDPATS = [r"\bx", r"a|ab", r"(.+)-(\d+)", r"(a|b)+", r"[a-z]+", r"[a-z]+[0-9]+", r"^(ab|cd|ef)", r"foo|bar", r"abc|abd|xyz\d", AC, r"\d+\.\d+",
+            r"ab$", r".*\.tx", r"[a-z]+\.(tx|lo|md)", r".*co.*", r"\w+@\w+\.\w+", r"(?m)^/.*\.js", r"^a.*c$", r"foo[a-z]{40}x", r"(?i)ab|cd"]
+WINFIND = {r"foo[a-z]{40}x": [("foo" + "a" * 39, "x")], r"abc|abd|xyz\d": [("xyz", ""), ("ab", "")], AC: [("a", ""), ("xj", "")]}
+LONG19 = {
+    "charclass": [(r"[a-z]+", "a-1"), (r"\w+", "a- "), (r"[^a-z]+", "a-1"), (r"[a-z]{2,}", "a-1")],
+    "composite": [(r"[a-z]+[0-9]+[a-z]+", "a1-"), (r"[a-z]+[0-9]+", "a1-"), (r"[a-z]*[0-9]+", "a1-"), (r"[a-z]+[0-9]*", "a1-"), (r"[a-z]{2}[0-9]", "a1-"), (r"[0-9]+[a-z]*[0-9]", "a1-")],
+    "compositedfa": [(r"[a-z]+[0-9]+[a-z]+", "a1-"), (r"[a-z]+[0-9]+", "a1-"), (r"[a-z]+[a-z]+", "a1-"), (r"[0-9]+[a-z]*[0-9]", "a1-"), (r"[a-z]?[0-9]", "a1-")],
+    "engine": [(r"[a-z]+[0-9]+[a-z]+", "a1-"), (r"[a-z]+\s+[0-9]+", "a1 "), (r"[a-z]{2,}[0-9]+", "a1-")],
+}
 # windows for patterns whose interesting matches are longer than the symbolic part
 WIN19 = {r"[a-z]+(?:\b-){1,2}e": [("a", ""), ("a-", "")], r".*ab$": [("", "b")], r"\d+ab": [("1", "")], r"x.*ab.*y": [("x", "y")], r"(?m)^/.*\.js": [("/", "s")], r"\w+@\w+": [("a", "")]}
 QUICK = {
@@ -44,6 +56,20 @@ def items(tier):
                     out.append(mk("C19", p, "engine.IsMatch", L, a, pre=pre, post=post))
             if tier != "quick":
                 out.append(mk("C19", p, api, 2, a, n=0))
+    # the specialised searchers have 4x unrolled loops: every position of a round (and the tail after it) needs haystacks
+    # of 7-9 bytes; the classes are exercised by one representative byte each, so the alphabet is 3 symbols
+    for api, pats in LONG19.items():
+        for p, al in (pats if tier != "quick" else pats[:3]):
+            for LL in ([7] if tier == "quick" else [7, 9]):
+                for at in ([0] if tier == "quick" else [0, 1]):
+                    out.append(mk("C19", p, api, LL, "hex:" + al.encode().hex(), n=at))
+    for p in FINDPATS:
+        a = alpha(p)
+        for at in ([0, 1] if tier == "quick" else [0, 1, 2]):
+            out.append(mk("C19", p, "engine.Find", L, a, n=at))
+        for pre, post in WINFIND.get(p, []) + WIN19.get(p, []) + corpus.windows(p):
+            out.append(mk("C19", p, "engine.Find", 3, a, n=0, pre=pre, post=post))
+            out.append(mk("C19", p, "engine.IsMatch", 3, a, pre=pre, post=post))
     return out
 
 
